@@ -269,3 +269,11 @@ Definition utf8_interp (c : dcfg) (t : utf8_tok) : bytes :=
 Definition utf8_spec_decode (c : dcfg) (s : bytes) : bytes * N :=
   let toks := utf8_lex false s in (flat_map (utf8_interp c) toks, utf8_spec_flags true toks).
 Definition utf8_spec_validate (s : bytes) : N := utf8_spec_flags false (utf8_lex true s).
+
+(* ------------------------------------------------------------------ the documented pipeline, stage by stage *)
+(* well-formed arguments: the path consists of bytes, the replacement byte is a byte *)
+Definition pth_wf (c : dcfg) (s : bytes) : bool := all_byte s && (d_replacement c <? 256).
+Definition pth_decoder_flags_spec (c : dcfg) (s : bytes) : N := pth_lor_all (map (pth_tok_flags c) (pth_lex c s)).
+(* UTF-8: best-fit conversion when configured, validation only otherwise *)
+Definition pth_spec_stage2 (c : dcfg) (p1 : bytes) : bytes * N :=
+  if d_bestfit c then utf8_spec_decode c p1 else (p1, utf8_spec_validate p1).
